@@ -35,7 +35,10 @@ THmac == /\ IsEvent("hmac") /\ Keep
             /\ B(Ev.digest) = d /\ B(Ev.oneshot) = d /\ Ev.zero
             /\ B(Ev.overmsg) = d /\ B(Ev.overkey) = d             \* also when the digest is written over the message or over the key
 TPbkdf2 == IsEvent("pbkdf2") /\ Keep /\ B(Ev.out) = H!Pbkdf2(B(Ev.pass), B(Ev.salt), Ev.c, Ev.dklen)
-TCrc == IsEvent("crc") /\ Keep /\ H!CrcOK(B(Ev.msg), B(Ev.out))
+\* the algebraic definition decides messages up to 300 bytes (and there agrees with the primitive); longer ones use the primitive
+TCrc == /\ IsEvent("crc") /\ Keep
+        /\ LET m == B(Ev.msg) IN
+           IF Len(m) <= 300 THEN H!CrcOK(m, B(Ev.out)) /\ B(Ev.out) = Crc32cBytes(m) ELSE B(Ev.out) = Crc32cBytes(m)
 \* C02
 TAes == /\ IsEvent("aes") /\ Keep /\ B(Ev.out) = AESEncryptBlock(B(Ev.key), B(Ev.in)) /\ Ev.tainted = 0
         /\ B(Ev.out) = X!AesRefEncrypt(B(Ev.key), B(Ev.in))
